@@ -167,8 +167,15 @@ def worker(cfg, tier):
     elif which == "extend":
         f = lambda: jnp.zeros((), jnp.float32)
         base = {"a": f(), "b": {"c": f(), "d": jnp.zeros((2,), jnp.float32)}}
-        for label, opt in (("leaf-level None", {"a": None, "b": {"c": f(), "d": None}}), ("subtree None", {"a": f(), "b": None}), ("nothing missing", base)):
-            tr = jx.Traced(lambda b, o, _opt=opt: Extend.init(b, _opt).apply(o), base, opt)
+        leafN, subN = {"a": None, "b": {"c": f(), "d": None}}, {"a": f(), "b": None}
+        SAME = object()
+        # (label, tree applied, tree the transform was initialised with): the result depends on the applied tree only
+        for label, opt, opt_init in (("leaf-level None", leafN, SAME), ("subtree None", subN, SAME), ("nothing missing", base, SAME),
+                                     ("leaf-level None, initialised without opt_params (documented default)", leafN, None),
+                                     ("leaf-level None, initialised with another pattern", leafN, subN), ("subtree None, initialised with another pattern", subN, leafN),
+                                     ("nothing missing, initialised with a partial tree", base, leafN)):
+            opt_init = opt if opt_init is SAME else opt_init
+            tr = jx.Traced(lambda b, o, _oi=opt_init: Extend.init(b, _oi).apply(o), base, opt)
             flat = tr.sym_inputs(it, "x")
 
             def g(i, o, _opt=opt):
